@@ -5,6 +5,7 @@ import (
 	"math"
 	"math/rand"
 	"strconv"
+	"strings"
 
 	"github.com/ctessum/geom/proj"
 )
@@ -21,6 +22,7 @@ var c08Ellps = []string{"MERIT", "SGS85", "GRS80", "IAU76", "airy", "APL4", "NWL
 	"WGS60", "WGS66", "WGS7", "WGS84"}
 var c08Datum3 = []string{"ggrs87", "potsdam", "carthage", "hermannskogel", "nzgd49", "s_jtsk", "beduaram", "gunung_segara"}
 var c08Datum7 = []string{"ch1903", "ire65", "rassadiran", "osgb36", "rnb72"}
+
 // a datum shift is exercised in the region its datum is defined for (elsewhere the ellipsoids are hundreds of metres
 // apart vertically, and a 2-D transformation cannot carry that height through the round trip)
 var c08Home = map[string][2]float64{"ggrs87": {23, 38}, "potsdam": {10, 51}, "carthage": {9, 35}, "hermannskogel": {14, 47.5}, "nzgd49": {173, -41},
@@ -138,6 +140,29 @@ func c08Build(cfg map[string]interface{}, rng *rand.Rand) (p4 string, grid [][2]
 		s += " +pm=" + pmName // +lon_0 counts from the prime meridian: the central meridian lies at lon_0 + pm east of Greenwich
 	}
 	s += " +no_defs"
+	// parameters left to their defaults: the false origin, the latitude of origin or the central meridian is not given
+	// (PROJ.4: zero).  The round trip is taken with whatever the definition then means.
+	if pn == "merc" || pn == "lcc" || pn == "aea" || pn == "eqdc" || pn == "tmerc" {
+		drop := func(keys ...string) {
+			for _, k := range keys {
+				if i := strings.Index(s, " +"+k+"="); i >= 0 {
+					j := strings.Index(s[i+1:], " ")
+					s = s[:i] + s[i+1+j:]
+				}
+			}
+		}
+		switch rng.Intn(5) {
+		case 1:
+			drop("x_0", "y_0")
+		case 2:
+			drop("lat_0")
+		case 3:
+			if !hasHome {
+				drop("lon_0")
+				lon0 = 0
+			}
+		}
+	}
 	dls := []float64{-3.4, -1.2, 0.3, 3.4}
 	if pn == "lcc" || pn == "aea" || pn == "eqdc" || pn == "merc" || pn == "longlat" {
 		dls = []float64{-60, -7.5, 0.3, 33, 120}
